@@ -236,6 +236,10 @@ pub trait Val: Sized + Clone + PatchField + Send + Sync + 'static {
     fn key(&self) -> Option<i64> {
         None
     }
+    /// for collections: iterate over the field with the store's own iterator, reading every item
+    fn iter_read<S: Fld<Self>>(_s: &S) -> Option<Sexp> {
+        None
+    }
 }
 
 fn node<T: Val, S: Fld<T>>(s: S) -> Option<Box<dyn Node>> {
@@ -408,6 +412,16 @@ impl<T: Val> Val for Vec<T> {
             _ => None,
         }
     }
+    fn iter_read<S: Fld<Self>>(s: &S) -> Option<Sexp> {
+        Some(Lst(s
+            .clone()
+            .iter_unkeyed()
+            .map(|item| match item.try_read() {
+                Some(g) => g.deref().enc(),
+                None => Lst(vec![Num(-1)]),
+            })
+            .collect()))
+    }
 }
 
 /// a type-erased store field
@@ -424,6 +438,10 @@ pub trait Node {
     fn path(&self) -> Vec<i64>;
     /// for a keyed collection: (key, last path segment of its item) in collection order
     fn key_segs(&self) -> Option<Vec<(i64, i64)>> {
+        None
+    }
+    /// iterate (tracked) over a collection field, reading every item
+    fn iter_read(&self) -> Option<Sexp> {
         None
     }
 }
@@ -457,6 +475,9 @@ impl<T: Val, S: Fld<T>> Node for N<S, T> {
     }
     fn path(&self) -> Vec<i64> {
         self.0.path().into_iter().map(seg).collect()
+    }
+    fn iter_read(&self) -> Option<Sexp> {
+        T::iter_read(&self.0)
     }
 }
 
@@ -508,6 +529,17 @@ where
     fn path(&self) -> Vec<i64> {
         StoreField::path(&self.0).into_iter().map(seg).collect()
     }
+    fn iter_read(&self) -> Option<Sexp> {
+        Some(Lst(self
+            .0
+            .clone()
+            .into_iter()
+            .map(|item| match item.try_read() {
+                Some(g) => g.deref().enc(),
+                None => Lst(vec![Num(-1)]),
+            })
+            .collect()))
+    }
     fn key_segs(&self) -> Option<Vec<(i64, i64)>> {
         let own = self.path().len();
         let ids: Vec<i64> = self.0.try_read_untracked()?.deref().iter().map(|it| it.id).collect();
@@ -549,10 +581,11 @@ fn walk(root: &Store<Root>, chain: &[Step]) -> (Box<dyn Node>, usize) {
 /// currently cut short by a `None` / a missing index / a missing key it reads nothing from
 /// the store (it is re-run only by its own `poke` trigger, see step 4).
 /// Observation: (steps taken, value read) or (steps taken).
-fn reader_body(root: &Store<Root>, chain: &[Step]) -> Sexp {
+fn reader_body(root: &Store<Root>, chain: &[Step], iterate: bool) -> Sexp {
     let (n, j) = walk(root, chain);
     if j == chain.len() {
-        Lst(vec![Num(j as i64), n.read()])
+        let v = if iterate { n.iter_read() } else { None };
+        Lst(vec![Num(j as i64), v.unwrap_or_else(|| n.read())])
     } else {
         Lst(vec![Num(j as i64)])
     }
@@ -566,7 +599,7 @@ fn phase(log: &Log) -> Sexp {
     Lst(vec![Sexp::from_nums(wakes.into_iter().map(|x| x as i64)), Lst(runs)])
 }
 
-/// (0 init readers steps sched)
+/// (0 init readers steps sched key-orders flavours)
 fn c16(c: &Sexp) -> Sexp {
     exec_reset();
     let init = Root::dec(c.at(1));
@@ -587,9 +620,10 @@ fn c16(c: &Sexp) -> Sexp {
         let chain = chain.clone();
         let log = log.clone();
         let poke = pokes[rid].clone();
+        let iterate = c.at(6).at(rid).num() != 0;
         Effect::new(move |_: Option<()>| {
             poke.track();
-            let v = reader_body(&store, &chain);
+            let v = reader_body(&store, &chain, iterate);
             log.borrow_mut().push(Lst(vec![Num(rid as i64), v]));
         });
     }
